@@ -160,6 +160,18 @@ def run(rec):
                 out = res[0] if isinstance(res, tuple) else res
                 M = np.array([[npc.inner(a, b, axes='range', do_conj=True) for b in out] for a in out])
                 rec.check(np.allclose(M, np.eye(len(out)), atol=1e-10), 'gram_schmidt:not-orthonormal', '', inp)
+            # ... also for nearly linearly dependent input (a, a + 1e-7 d_i): the documented procedure (each overlap taken with the vector
+            # from which the earlier components have already been removed) keeps the result orthonormal to ~1e-8; taking all overlaps
+            # with the original vector does not (errors ~1e-2)
+            if dim_sec >= 6:          # (room for the perturbations: in a sector of dimension ~ number of vectors the problem is ill-conditioned)
+                a0 = npc.Array.from_func(lambda s: rng.standard_normal(s), [leg], qtotal=psi0.qtotal, labels=['p'])
+                near = [a0] + [a0 + 1e-7 * npc.Array.from_func(lambda s: rng.standard_normal(s), [leg], qtotal=psi0.qtotal, labels=['p']) for _ in range(2)]
+                ok, res = rec.guarded('gram_schmidt:exception', lambda: kb.gram_schmidt([v.copy() for v in near], rcond=1e-13), inp)
+                if ok:
+                    out = res[0] if isinstance(res, tuple) else res
+                    M = np.array([[npc.inner(x, y, axes='range', do_conj=True) for y in out] for x in out])
+                    rec.check(len(out) >= 2 and np.allclose(M, np.eye(len(out)), atol=1e-5), 'gram_schmidt[nearly dependent]:not-orthonormal',
+                              f'{len(out)} vectors, max |G - 1| = {np.abs(M - np.eye(len(out))).max()}', inp)
             # GMRES
             b = npc.Array.from_func(lambda s: rng.standard_normal(s), [leg], qtotal=psi0.qtotal, labels=['p'])
             A = ShiftNpcLinearOperator(H, 10.0)   # well conditioned
